@@ -577,3 +577,57 @@ func VerifC07BPMFlag() {
 	vf.Assert("later-instances-keep-their-own", got.instances[1].BPM == nil && got.instances[2].BPM == nil)
 	vf.Reach("end")
 }
+
+// VerifC12LongInput: a long piece (more elements than any plausible batch size, with a key
+// change in the middle and one near the end) converts to the same bytes on every run, whatever
+// the CPU count and whichever of the goroutines the command starts runs first, and through
+// stdin as through a FILE argument. The short texts of the other harnesses cannot see
+// anything that only happens above a size threshold.
+func VerifC12LongInput() {
+	n := vf.Param("C12.longChords", 140)
+	vf.Unwind(400 * n) // the input is concrete; loops run as long as the text is
+	var sb strings.Builder
+	for i := 0; i < n; i++ {
+		switch {
+		case i == n/2:
+			sb.WriteString("D[1]{key=D} ")
+		case i == n-3:
+			sb.WriteString("Eb[1/2]{key=Bb}\n")
+		case i%7 == 3:
+			sb.WriteString("R[1] ; rest\n")
+		default:
+			sb.WriteString([]string{"D[1] ", "G_m7/Bb[1,1/2] ", "A_7[2] ", "F#_m[1/3] "}[i%4])
+		}
+	}
+	in := vf.TempPath("long-in.txt")
+	verifReset(in)
+	defer verifReset(in)
+	os.WriteFile(in, []byte(sb.String()), 0o644)
+	vf.Assert("flags-parse", textCmdConvSyllable.ParseFlags([]string{"--output", "", "--key", "C"}) == nil)
+	run := func(useStdin bool) (string, error) {
+		args := []string{in}
+		oldIn := os.Stdin
+		if useStdin {
+			f, err := os.Open(in)
+			if err != nil {
+				return "", err
+			}
+			os.Stdin = f
+			defer func() { os.Stdin = oldIn; f.Close() }()
+			args = nil
+		}
+		return verifCapture("long-stdout.txt", func() error { return textCmdConvSyllable.RunE(textCmdConvSyllable, args) })
+	}
+	// reference: one CPU, goroutines in starting order
+	vf.CPUs(1)
+	ref, rerr := run(false)
+	vf.Assert("long-piece-converts", rerr == nil && ref != "")
+	// again with another CPU count and an arbitrary choice of who runs first at every start
+	vf.CPUs([]int{1, 2, 4, 16}[vf.NondetIntRange("cpus", 0, 3)])
+	vf.NondetSpawnOrder(true)
+	again, aerr := run(vf.NondetIntRange("stdin", 0, 1) == 1)
+	vf.NondetSpawnOrder(false)
+	vf.Assert("same-outcome-on-every-run", (aerr == nil) == (rerr == nil))
+	vf.Assert("same-bytes-on-every-run", again == ref)
+	vf.Reach("end")
+}
